@@ -201,10 +201,41 @@ class Explorer:
                 res.sample = {"graph": self.g.gid, "history": [[m] + list(o) for m, o in history], "final": br,
                               "reference_joint_logd": self.ref}
             return
+        self.reuse_probe(obj, br, remaining, names, fixed, history)
         for r in range(1, len(remaining) + 1):
             for S in itertools.combinations(remaining, r):
                 for step in step_modes(S, names, self.tier):
                     self.explore(history + (step,), fixed | set(S))
+
+    def reuse_probe(self, obj, br, remaining, names, fixed, history):
+        """Non-initial states: the SAME live object is conditioned by every child step, twice in a row; the objects
+        obtained in the second pass must still evaluate to the reference joint log-density (a conditioning call that
+        leaks constants / values into its operand shows only from the second use on)."""
+        steps = []
+        for r in range(1, len(remaining) + 1):
+            for S in itertools.combinations(remaining, r):
+                for step in step_modes(S, names, self.tier):
+                    steps.append((S, step))
+        for pass_no in (1, 2):
+            for S, step in steps:
+                try:
+                    child = apply_step(obj, step, self.vals)
+                except Exception:
+                    continue            # refusals are judged by explore() on fresh objects
+                self.res.transitions += 1
+                if pass_no == 1:
+                    continue
+                rest = [n for n in remaining if n not in S]
+                try:
+                    v = GR.scalar(child.logd(**_cp(self.vals, rest)))
+                except Exception:
+                    continue            # evaluation modes are judged by eval_state on fresh objects
+                self.res.evaluations += 1
+                if not close(v, self.ref, RTOL):
+                    self.fail("%s|condition-reuse|value" % br, "conditioning the same live %s object on %s again (after it had "
+                              "already been conditioned in other ways) gives logd %.15g, reference joint log-density %.15g"
+                              % (br, list(S), v, self.ref), history + (step,), impl=v, ref=self.ref)
+                    return
 
     # -- evaluation of one state ---------------------------------------------------------------
     def call(self, fn, *a, **kw):
